@@ -516,3 +516,7 @@ mutator_case!(c12t_insert_s1_c0, 1, [], 0, 1, case_insert);
 mutator_case!(c12t_insert_s2_c1p0, 2, [], 1, 0, case_insert);
 mutator_case!(c12t_remove_s2_c0p1, 2, [], 0, 1, case_remove);
 mutator_case!(c12t_update_s2_c0p1, 2, [], 0, 1, case_update);
+
+// native replay of a Kani counterexample (bin/vcheck replay): the generated test is included here
+#[cfg(verif_playback)]
+include!("/verif/work/k/playback/joblist_harness.rs");
